@@ -81,7 +81,7 @@ def check(cx):
     # the teardown clears the containers under the nick the connection holds now: every nick-keyed container must hold the user under
     # that nick, i.e. a nick change moves every entry (an entry left under the old nick survives the session)
     depends(cx, r6, 'C15', ('R15.2',), 'a nick change leaves no entry under the old nick (the teardown only clears the current one)',
-            only=r'rekey')
+            only=r'rekey\|(?!wallops-condition\|(?!stale))')
 
     # ---------------------------------------------------------------- R6.2
     r2 = cx.rule('R6.2', 'termination causes store the quit flag', floor=4, kind='must-exist')
